@@ -203,7 +203,7 @@ Section Transp.
     intros Hs Hk. apply orb_false_iff in Hk as [Hk1 Hk2].
     exists (raws, tys'). split.
     - exists i. unfold hint_of. rewrite Es. auto.
-    - pose proof (Htoks _ _ Et) as Hto. unfold tok_ok_b in Hto. rewrite Ec in Hto. cbn [negb orb] in Hto.
+    - pose proof (Htoks _ _ Et) as Hto. unfold tok_ok_b, tok_ok_with in Hto. rewrite Ec in Hto. cbn [negb orb] in Hto.
       apply andb_true_iff in Hto as [Hto T3]. apply andb_true_iff in Hto as [T1 T2].
       exists (strip_tok t). b2p. split; [exact El|]. split; [rewrite get_strip, Et; reflexivity|].
       cbn [strip_tok p_kind p_types]. split; [|split; [exact T2|apply negb_true_iff; exact T3]].
